@@ -66,6 +66,118 @@ def _model_import(importer: str, importee: str) -> NativeObj:
     )
 
 
+def _record_import(rec: tuple) -> NativeObj:
+    """An `Import` as one of the concrete classes of the analysed code produces it (see `import_records`)."""
+    importer, importee, ip, ep, label = rec
+    return NativeObj(
+        f"<{label} {importer} -> {importee}>",
+        {"importer": lambda: importer, "importee": lambda: importee, "importer_parent_modules": lambda: list(ip), "importee_parent_modules": lambda: list(ep)},
+    )
+
+
+ACCESSORS = ("importer", "importee", "importer_parent_modules", "importee_parent_modules")
+
+
+def import_records(cx: "Ctx", ev: Evaluator) -> tuple[list[tuple], list[str]]:
+    """What the accessors of the concrete `Import` classes return, tabulated by constructing them (in the evaluator) from their annotated
+    constructor parameters: (importer, importee, importer parents, importee parents, class name).  Only records that differ from the
+    idealised model (`*_parent_modules()` = all proper dotted prefixes of the name) are returned - today: relative imports, whose
+    importee parents are those of the *relative* name.  Second result: classes that could not be tabulated."""
+    repo = cx.repo
+    recs: list[tuple] = []
+    failed: list[str] = []
+    seen: set = set()
+    classes: list[ClassInfo] = []
+    for fq in sorted(cx.import_classes):
+        ci = repo.classes.get(fq)
+        if ci is None:
+            continue
+        for c in [ci, *repo.subclasses(ci)]:
+            if c not in classes:
+                classes.append(c)
+    for c in classes:
+        meths = [repo.lookup_method(c, a) for a in ACCESSORS]
+        if any(m is None or m.is_abstract for m in meths):
+            continue  # abstract: never instantiated
+        init = repo.lookup_method(c, "__init__")
+        if init is None:
+            failed.append(f"{c.name}: no constructor")
+            continue
+        params = init.param_names[1:]
+        got = 0
+        for i in range(0, 8, 2):
+            a, b = NAME_POOL[i], NAME_POOL[i + 1]
+            tails = [".".join(b.split(".")[-2:]), b.split(".")[-1]]
+            choices: list[list] = []
+            n_str = 0
+            for p in params:
+                ks = {m[1] for m in members(cx.T.param_type(init, p)) if m[0] == "b"}
+                if "str" in ks:
+                    if n_str == 0 and "none" not in ks:
+                        choices.append([a])
+                    elif "none" in ks:
+                        choices.append([tails[0], tails[1], None])
+                    else:
+                        choices.append([b, tails[0]])
+                    n_str += 1
+                elif "int" in ks:
+                    choices.append([1, 2])
+                elif "none" in ks:
+                    choices.append([None])
+                elif "bool" in ks:
+                    choices.append([False, True])
+                else:
+                    choices = []
+                    break
+            if not choices and params:
+                failed.append(f"{c.name}: constructor parameter types are not understood")
+                break
+            import itertools
+
+            for combo in itertools.islice(itertools.product(*choices), 40):
+                try:
+                    o = ev._construct(c, list(combo), {})
+                    fr = Frame(None, c.module, Env({}))
+                    vals = [ev.apply(ev.getattr(o, acc, fr), [], {}) for acc in ACCESSORS]
+                except Raised:
+                    continue  # this combination is rejected by the constructor
+                except Unknown:
+                    continue
+                if not (isinstance(vals[0], str) and isinstance(vals[1], str) and all(isinstance(v, list) and all(isinstance(x, str) for x in v) for v in vals[2:])):
+                    continue
+                got += 1
+                if vals[2] == _prefixes(vals[0]) and vals[3] == _prefixes(vals[1]):
+                    continue
+                key = (vals[0], vals[1], tuple(vals[2]), tuple(vals[3]))
+                if key not in seen:
+                    seen.add(key)
+                    recs.append((vals[0], vals[1], tuple(vals[2]), tuple(vals[3]), c.name))
+        if not got and not any(x.startswith(c.name + ":") for x in failed):
+            failed.append(f"{c.name}: no instance could be constructed in the evaluator")
+    # a small, varied selection (generation order: the first pool pair first), one record per shape of names / parents lists
+    picked: list[tuple] = []
+    shapes: set = set()
+    for r in recs:
+        shape = (r[4], len(r[1].split(".")), len(r[3]), len(r[0].split(".")))
+        if shape not in shapes and len(picked) < 6:
+            shapes.add(shape)
+            picked.append(r)
+    return picked, failed
+
+
+def _squeeze(names: list) -> list:
+    """Consecutive duplicates removed: the quotient of a chain (module hierarchy) keeps each collapsed node once."""
+    out: list = []
+    for x in names:
+        if not out or out[-1] != x:
+            out.append(x)
+    return out
+
+
+def _is_name_or_parent(x: object, used: list) -> bool:
+    return isinstance(x, str) and any(x == u or (isinstance(u, str) and u.startswith(x + ".")) for u in used)
+
+
 def trunc(name: str, limit: int | None) -> str:
     """The specification of the truncation."""
     return name if limit is None else ".".join(name.split(".")[: limit + 1])
@@ -218,6 +330,11 @@ class Flattening:
                     self.carriers.add(k)
         self.flat_exprs: dict[int, str] = {}  # id(expr) -> verdict
         self.verdicts: list[dict] = []
+        # Import records of the concrete classes that the idealised model does not cover (tabulated in extra rounds)
+        try:
+            self.records, self.records_failed = import_records(cx, Evaluator(cx.repo, tolerant=True))
+        except (Unknown, Raised, AnalysisError) as e:
+            self.records, self.records_failed = [], [f"Import classes: {e}"]
 
     @staticmethod
     def _sig(v: object) -> str:
@@ -334,6 +451,17 @@ class Flattening:
                 found.append(None)
         return found[0] if len(found) == 1 else None
 
+    def _raw_definition(self, f: FuncInfo, name: str, flow: Flow):
+        """The only definition of a raw local, when it is an expression that does not depend on the limit (None otherwise)."""
+        cache = self.__dict__.setdefault("_rawdef", {})
+        key = (f.fq, name)
+        if key not in cache:
+            d = None if name in f.param_names else self._single_def(f, name)
+            if not isinstance(d, ast.expr) or isinstance(d, ast.Lambda) or self.depends_on_limit(f, d, flow):
+                d = None
+            cache[key] = d
+        return cache[key]
+
     def _bind(self, f: FuncInfo, e: ast.expr, flow: Flow, lim: object, rnd: int) -> tuple[dict, list[str]]:
         """Environment for tabulating `e` (an expression of construction function `f`) on a graph with limit `lim`: the receiver is the
         graph object, raw names are test names, values derived from the limit only are the limit, local aliases / lambdas / nested
@@ -350,6 +478,7 @@ class Flattening:
             env[f.param_names[0]] = self.objs[lim]
         i = 0
         aliases: list[tuple[str, ast.expr]] = []
+        raw_fallback: dict[str, object] = {}
         queue: list[ast.AST] = [e]
         while queue:
             x = queue.pop()
@@ -361,10 +490,24 @@ class Flattening:
                     continue
                 tags = flow.tags(n)
                 if self.cx.is_import_value(f, n):
+                    if rnd >= len(NAME_POOL) and self.records:
+                        rec = self.records[(rnd - len(NAME_POOL) + i // 2) % len(self.records)]
+                        i += 2
+                        env[n.id] = _record_import(rec)
+                        used += [rec[0], rec[1], *rec[2], *rec[3]]
+                        continue
                     a, b = NAME_POOL[(i + rnd) % len(NAME_POOL)], NAME_POOL[(i + rnd + 1) % len(NAME_POOL)]
                     i += 2
                     env[n.id] = _model_import(a, b)
                     used += [a, b, *_prefixes(a), *_prefixes(b)]
+                elif "RAW" in tags and "FLAT" not in tags and len(aliases) < 12 and self._raw_definition(f, n.id, flow) is not None:
+                    # a raw local with one definition (`parents = get_parent_modules(importee)`, `importee = imp.importee()`): evaluate the
+                    # definition, so that names that belong together (a name and its parents list) stay related; pool name as a fallback
+                    d = self._raw_definition(f, n.id, flow)
+                    env[n.id] = POISON
+                    aliases.append((n.id, d))
+                    raw_fallback[n.id] = self.cx.T.expr(f, n)
+                    queue.append(d)
                 elif "RAW" in tags or "FLAT" in tags:
                     name = NAME_POOL[(i + rnd) % len(NAME_POOL)]
                     other = NAME_POOL[(i + rnd + 1) % len(NAME_POOL)]
@@ -384,11 +527,31 @@ class Flattening:
                     elif isinstance(d, (ast.Lambda, ast.Attribute, ast.Call, ast.Name, ast.IfExp)) and len(aliases) < 8:
                         aliases.append((n.id, d))
                         queue.append(d)
-        for name, rhs in reversed(aliases):
-            try:
-                env[name] = self.ev.ev(rhs, Frame(f, f.module, envobj))
-            except (Unknown, Raised):
-                env[name] = POISON
+        # definitions are evaluated once everything they mention is known (a few passes; the rest stays undetermined)
+        pending = dict(reversed(aliases))
+        for _ in range(len(pending) + 1):
+            progress = False
+            for name, rhs in list(pending.items()):
+                if any(isinstance(x, ast.Name) and x.id in pending and x.id != name for x in ast.walk(rhs)):
+                    continue
+                del pending[name]
+                progress = True
+                try:
+                    env[name] = self.ev.ev(rhs, Frame(f, f.module, envobj))
+                except (Unknown, Raised):
+                    env[name] = POISON
+            if not progress:
+                break
+        for name, t in raw_fallback.items():
+            v = env.get(name)
+            if v is POISON or name in pending or self._leaves(v) is None:
+                pool, other = NAME_POOL[(i + rnd) % len(NAME_POOL)], NAME_POOL[(i + rnd + 1) % len(NAME_POOL)]
+                i += 1
+                coll = any(m[0] == "b" and m[1] in ("list", "seq", "iter", "tuple", "set", "frozenset") for m in members(t))
+                env[name] = [pool, other] if coll else pool
+                used += [pool, other] if coll else [pool]
+            else:
+                used += [x for x in self._leaves(v) if x not in used]
         return env, used
 
     @staticmethod
@@ -415,7 +578,16 @@ class Flattening:
             return {"verdict": "unknown", "why": self.build_error}
         rows: dict[tuple[int, object], tuple] = {}
         why = ""
-        for rnd in range(len(NAME_POOL)):
+        rounds = list(range(len(NAME_POOL)))
+        try:
+            probe, _ = self._bind(f, e, flow, None, 0)
+        except (Unknown, Raised):
+            probe = {}
+        has_imp = any(isinstance(v, NativeObj) for v in probe.values())
+        if has_imp:
+            # names as the concrete Import classes hand them out (relative imports: the parents list is not the prefix chain of the importee)
+            rounds += [len(NAME_POOL) + k for k in range(len(self.records))]
+        for rnd in rounds:
             for lim in LIMITS:
                 env, used = self._bind(f, e, flow, lim, rnd)
                 fr = Frame(f, f.module, Env(env))
@@ -435,30 +607,46 @@ class Flattening:
         kinds = {r[0] for r in rows.values()}
         if "unknown" in kinds:
             return {"verdict": "unknown", "why": why}
-        dependent = any(rows[(rnd, lim)][:2] != rows[(rnd, None)][:2] for rnd in range(len(NAME_POOL)) for lim in LIMITS)
+        dependent = any(rows[(rnd, lim)][:2] != rows[(rnd, None)][:2] for rnd in rounds for lim in LIMITS)
         if not dependent:
             return {"verdict": "independent"}
         if all(r[0] == "other" and isinstance(r[3], bool) for r in rows.values()):
             return self._classify_predicate(rows)
-        cut_only = all(rows[(rnd, None)][0] == "raise" for rnd in range(len(NAME_POOL)))
+
+        def origin(rnd: int) -> str:
+            if rnd < len(NAME_POOL) or not self.records:
+                return ""
+            rec = self.records[(rnd - len(NAME_POOL)) % len(self.records)]
+            return f" - names as a {rec[4]} hands them out: importer() = {rec[0]!r}, importee() = {rec[1]!r}, importer_parent_modules() = {list(rec[2])}, importee_parent_modules() = {list(rec[3])}"
+
+        cut_only = all(rows[(rnd, None)][0] == "raise" for rnd in rounds)
         if cut_only and self.unreachable_without_limit(f, e):
             # the expression is only evaluated when a limit is set; what happens without one is decided by the code around it
             pass
         else:
             cut_only = False
-            for rnd in range(len(NAME_POOL)):
+            for rnd in rounds:
                 base = rows[(rnd, None)]
-                if base[0] != "names" or any(x not in base[2] for x in base[1]):
-                    return {"verdict": "wrong-identity", "example": f"without a limit {self._show(base)} is produced from {base[2]}"}
-        for rnd in range(len(NAME_POOL)):
+                # without a limit the expression hands on the names it was given (or parents of them: a module hierarchy)
+                if base[0] != "names" or any(not _is_name_or_parent(x, base[2]) for x in base[1]) or (len(base[1]) == 1 and base[1][0] not in base[2]):
+                    return {"verdict": "wrong-identity", "example": f"without a limit {self._show(base)} is produced from {base[2]}{origin(rnd)}"}
+        squeezed = False
+        for rnd in rounds:
             base = rows[(rnd, None)]
             names = list(base[2]) if cut_only else base[1]
             for lim in LIMITS[1:]:
                 got = rows[(rnd, lim)]
                 want = [trunc(x, lim) for x in names]
-                if got[0] != "names" or got[1] != want:
-                    return {"verdict": "wrong-cut", "example": f"with limit {lim}, {names} becomes {self._show(got)} instead of {want}"}
-        return {"verdict": "cut-only" if cut_only else "flatten"}
+                if got[0] == "names" and got[1] == want:
+                    continue
+                if got[0] == "names" and not cut_only and len(want) > 1 and got[1] == _squeeze(want):
+                    squeezed = True  # a chain (module hierarchy) whose collapsed members appear once
+                    continue
+                return {"verdict": "wrong-cut", "example": f"with limit {lim}, {names} becomes {self._show(got)} instead of {want}{origin(rnd)}"}
+        if has_imp and self.records_failed and any(isinstance(n, ast.Attribute) and n.attr in ACCESSORS[2:] for n in ast.walk(e)):
+            # the verdict rests on the idealised model of the parents lists, and the real classes could not be tabulated
+            return {"verdict": "unknown", "why": "the node names are derived from the parents lists of an Import, and what the Import classes return there cannot be tabulated (" + "; ".join(self.records_failed[:2]) + ")"}
+        return {"verdict": "cut-only" if cut_only else "flatten", "squeezed": squeezed}
 
     @staticmethod
     def _classify_predicate(rows: dict) -> dict:
